@@ -390,3 +390,9 @@ _popf("pops_from_swc", "Populations", "from_swc", None, fuel=False, params=["roo
              "os.path.join(d, p)": ("(join v.d v.p)", "Int")},
       doc="`swcgeom/core/population.py::Populations.from_swc` with `labels=None`: the file matching (`find_swcs` and `os.path.join` are pure function "
           "parameters: the relative names found under a root, the file a root and a relative name designate)")
+_popf("popl_len", "Population", "__len__", "PopList", params=["self"], ret="Int")
+POPF_METHODS[("PopList", "__len__")] = "popl_len"
+_popf("popsl_init", "Populations", "__init__", "PopulationsL", ctor=True, params=["self", "populations"], absent=["labels"],
+      stmt_subst={"labels = list(labels) if labels is not None else ['' for i in populations]": "labels = ['' for i in populations]"},
+      vars={"populations": "List PopList", "p": "PopList", "i": "PopList", "labels": "List String"}, out=["self"],
+      doc="`swcgeom/core/population.py::Populations.__init__` with `labels=None`, over populations that hold plain lists of trees")
